@@ -87,19 +87,22 @@ theorem Inv.localStep {s : St} {t : Nat} {th : Thread} {pc' : PC} {j : Bool} (hI
     (hpk : progOK th.prog pc' = true)
     (hml : ∀ todo held, pc' = .mLock todo held → (todo ++ held).Nodup)
     (hjs : ∀ a, pc' = .done a → readKey th.prog ≠ none → (th.just || j) = true)
-    (hne : (∀ p, pc' ≠ .rCache p) ∧ pc' ≠ .wCache ∧ (∀ a b, pc' ≠ .mCache a b) ∧ (∀ a, pc' ≠ .mWrite a) ∧ (∀ a, pc' ≠ .mUnlock a)) :
+    (hne : (∀ p, pc' ≠ .rCache p) ∧ (∀ p, pc' ≠ .rUnlock p) ∧ pc' ≠ .wCache ∧ (∀ a b, pc' ≠ .mCache a b) ∧ (∀ a, pc' ≠ .mWrite a) ∧ (∀ a, pc' ≠ .mUnlock a)) :
     Inv (setThread s t (mv th pc' j)) := by
   have hT := hI.thr t th hth
   refine hI.mk_step hth rfl (Frame.refl' s t _) ?_ ?_ ?_ hI.ex ?_
-  · refine ⟨hpk, ?_, ?_, ?_, ?_, ?_, hml, ?_, ?_, ?_, hjs⟩
+  · refine ⟨hpk, ?_, ?_, ?_, ?_, ?_, hml, ?_, ?_, ?_, hjs, ?_⟩
     · intro k hk; have := hold' k; simp [mv] at hk; rw [this] at hk; cases hk
     · intro h; simp [mv] at h; rw [hrs'] at h; cases h
     · intro p k hp; exact absurd hp (hne.1 p)
-    · intro hp; exact absurd hp hne.2.1
-    · intro a b hp; exact absurd hp (hne.2.2.1 a b)
-    · intro a hp; exact absurd hp (hne.2.2.2.1 a)
-    · intro a b hp; exact absurd hp (hne.2.2.1 a b)
-    · intro a hp; exact absurd hp (hne.2.2.2.2 a)
+    · intro hp; exact absurd hp hne.2.2.1
+    · intro a b hp; exact absurd hp (hne.2.2.2.1 a b)
+    · intro a hp; exact absurd hp (hne.2.2.2.2.1 a)
+    · intro a b hp; exact absurd hp (hne.2.2.2.1 a b)
+    · intro a hp; exact absurd hp (hne.2.2.2.2.2 a)
+    · intro p hp; rcases hp with hp | hp
+      · exact absurd hp (hne.1 p)
+      · exact absurd hp (hne.2.1 p)
   · intro k hk
     obtain ⟨thx, h1, h2⟩ := hI.wv k t hk
     rw [hth] at h1; cases h1
